@@ -643,6 +643,48 @@ theorem shape_parsereport : Gen.ParseReport.condKinds = ["if-exit"] ∧
 theorem parsereport_length (n : BitVec 64) : Gen.ParseReport.c0 n = decide (n.toNat ≠ 80) := by
   unfold Gen.ParseReport.c0
   bv_arith
+/-- The four loaders of a start: what they test is pinned (a missing file is created, any other read error
+ends the start, a partial trailing record is dropped, a record that does not verify ends the start -
+nothing is skipped, defaulted or retried), and the two length tests are the specified ones. -/
+theorem shape_loadequipment : Gen.LoadEquipment.condKinds = ["if"] ∧ Gen.LoadEquipment.untranslated =
+    ["err != nil", "os.IsNotExist(err)", "err != nil", "err != nil", "buffer.Len() > 0", "err != nil", "err != nil",
+     "exists", "exists", "bytes.Equal(a, b)", "used", "!exists"] := by decide
+theorem shape_loadhistory : Gen.LoadHistory.condKinds = ["if-exit"] ∧ Gen.LoadHistory.untranslated =
+    ["os.IsNotExist(err)", "err != nil", "err != nil", "err != nil", "err != nil", "terr != nil"] ∧
+    (∀ n, Gen.LoadHistory.c0 n = (n == 0#64)) := by
+  refine ⟨by decide, by decide, fun n => rfl⟩
+theorem shape_loadreports : Gen.LoadReports.condKinds = ["if"] ∧ Gen.LoadReports.untranslated =
+    ["err != nil", "!os.IsNotExist(err)", "err != nil", "err != nil", "i < len(rawData) / 80", "banned", "err != nil"] := by decide
+theorem shape_loadgcapubkey : Gen.LoadGCAPubkey.condKinds = ["if-exit"] ∧ Gen.LoadGCAPubkey.untranslated =
+    ["os.IsNotExist(err) || (err == nil && len(pubkeyData) == 0)", "err != nil"] := by decide
+/-- "The log ends inside a record": the remainder of the file length by the record size (a Go `int`, never negative). -/
+theorem loadequipment_torn (n : BitVec 64) (h : n.toNat < 2^63) :
+    Gen.LoadEquipment.c0 n = decide (n.toNat % 148 ≠ 0) := by
+  unfold Gen.LoadEquipment.c0
+  have hs := srem64_nonneg n (148#64) h (by decide)
+  have h148 : (148#64 : BitVec 64).toNat = 148 := by decide
+  by_cases hz : n.toNat % 148 = 0
+  · have : BitVec.srem n (148#64) = 0#64 := by
+      apply BitVec.eq_of_toNat_eq; rw [hs, h148, hz]; rfl
+    simp [this, hz]
+  · have : BitVec.srem n (148#64) ≠ 0#64 := by
+      intro he; apply hz; have := congrArg BitVec.toNat he; rw [hs, h148] at this; simpa using this
+    simp [this, hz]
+theorem loadreports_torn (n : BitVec 64) (h : n.toNat < 2^63) :
+    Gen.LoadReports.c0 n = decide (n.toNat % 80 ≠ 0) := by
+  unfold Gen.LoadReports.c0
+  have hs := srem64_nonneg n (80#64) h (by decide)
+  have h80 : (80#64 : BitVec 64).toNat = 80 := by decide
+  by_cases hz : n.toNat % 80 = 0
+  · have : BitVec.srem n (80#64) = 0#64 := by
+      apply BitVec.eq_of_toNat_eq; rw [hs, h80, hz]; rfl
+    simp [this, hz]
+  · have : BitVec.srem n (80#64) ≠ 0#64 := by
+      intro he; apply hz; have := congrArg BitVec.toNat he; rw [hs, h80] at this; simpa using this
+    simp [this, hz]
+theorem loadgcapubkey_length (n : BitVec 64) : Gen.LoadGCAPubkey.c0 n = decide (n.toNat ≠ 32) := by
+  unfold Gen.LoadGCAPubkey.c0
+  bv_arith
 theorem shape_verifyauth : Gen.VerifyAuth.condKinds = [] ∧ Gen.VerifyAuth.untranslated = ["!isValid"] := by decide
 theorem shape_registergca : Gen.RegisterGCA.condKinds = ["if-exit"] ∧ Gen.RegisterGCA.untranslated = ["!isValid", "err != nil"] ∧
     (∀ b, Gen.RegisterGCA.c0 b = b) := by decide
